@@ -271,7 +271,7 @@ pub fn run(ctx: &Ctx) -> Report {
          non-trivial = the document changed and contains >=1 decoy (comment or raw-text element mentioning path tags, void or self-closing element); distinct by case hash",
     );
     rep.assume("selectors are class selectors whose hits sit on elements whose tree construction is context-free in html5ever fragment mode (scraper/html5ever are trusted for selector evaluation); text nodes never contain a '<' that could open a tag; non-void elements carry explicit end tags");
-    rep.add(run_part(ctx, "documents", ctx.cases(40_000, 2_000_000), strategy, check, &[]));
+    rep.add(run_part(ctx, "documents", ctx.cases(800_000, 30_000_000), strategy, check, &[]));
     rep
 }
 
